@@ -474,9 +474,16 @@ func (c *FnCtx) havocModItem(st *State, env *SpecEnv, m ModItem, preHeap map[str
 		}
 	case "all":
 		for name := range c.allArrays() {
-			c.heapHavoc(st, name)
+			old := c.heapGet(st.heap, name)
+			nv := c.heapHavoc(st, name)
+			// the caller's own stack variables (non-escaping allocations) are out of the callee's reach
+			if name[0] == 'F' || name[0] == 'C' {
+				for r := range c.stackRefs {
+					st.assume(eq(sel(nv, r), sel(old, r)))
+				}
+			}
 		}
-		c.note("modifies * : whole heap havoc")
+		c.note("modifies * : whole heap havoc (except the caller's stack variables)")
 	case "field":
 		obj, err := c.eval(env, m.Expr)
 		if err != nil {
